@@ -26,7 +26,7 @@ def show(x):
         return "int:%d" % int(x)
     name = type(x).__name__
     s = str(x)
-    if "nknown" in s or "nknown" in name:
+    if x is __import__("stepcode.SimpleDataTypes", fromlist=["Unknown"]).Unknown or "nknown" in s or "nknown" in name:
         return "Unknown"
     return "other:" + name
 
